@@ -422,12 +422,16 @@ Section WalkerP.
     let tokens := skip_assignments ws in
     name_scans astr c (match tokens with b :: _ => b | [] => [] end) ws (length ws - length tokens) 0 (children "words" t).
 
+  (* an "ask" for every word of the assignment prefix that sets a variable deciding what runs (PATH, LD_PRELOAD, ...) *)
+  Definition cmd_env (t : tree) : list verdict :=
+    let ws := cmd_words t in env_asks (length ws - length (skip_assignments ws)) 0 ws.
+
   Lemma walk_command c ss fs ks : let t := T $"command" ss fs ks in
-    walk c t = combine (wparts c (children "words" t) ++ cmd_names c t ++ cmd_inj c t ++ redirs_of c t ++ cmd_proper c t).
+    walk c t = combine (wparts c (children "words" t) ++ cmd_env t ++ cmd_names c t ++ cmd_inj c t ++ redirs_of c t ++ cmd_proper c t).
   Proof.
     intro t. subst t. open_node.
     rewrite (redirs_kr c $"command" ss fs), (lbl_children "words" $"command" ss fs ks).
-    unfold wparts, wpartsb, cmd_names, cmd_inj, cmd_proper, cmd_words.
+    unfold wparts, wpartsb, cmd_env, cmd_names, cmd_inj, cmd_proper, cmd_words.
     rewrite !map_map. cbn [fst snd]. rewrite map_id.
     rewrite skipn_map, existsb_map_pairs.
     rewrite (flat_map_concat_map _ (map _ _)), map_map, <- flat_map_concat_map. cbn [snd].
